@@ -114,3 +114,18 @@ Definition pr_spec_check (eps : Q) (g : graph) (d : Q) (bound : Q) (sc : list (n
   forallb (fun v => match aget sc v with Some x => Qle_bool 0 x | None => false end) (nodes g)
   && close eps (qsum (map (score sc) (nodes g))) 1
   && Qle_bool (residual g d sc) bound.
+
+(* one generated correspondence case: (g, ((damping, tol, max_iter), (strict, observable, residual bound))) *)
+Definition pr_case (c : graph * ((Q * Q * nat) * (bool * (list (nat * Q) * Q * nat * pstatus) * Q))) : bool :=
+  let g := fst c in
+  let d := fst (fst (fst (snd c))) in
+  let tol := snd (fst (fst (snd c))) in
+  let mi := snd (fst (snd c)) in
+  let strict := fst (fst (snd (snd c))) in
+  let o := snd (fst (snd (snd c))) in
+  let bound := snd (snd (snd c)) in
+  let sc := fst (fst (fst o)) in
+  let it := snd (fst o) in
+  let eps := 1 # 1000000000 in
+  (if strict then pr_corr_strict eps g d tol mi o else pr_corr_iter eps g d it sc)
+  && pr_spec_check eps g d bound sc.
